@@ -77,7 +77,23 @@ def _corpus(rng):
                                     "scheduler": {"kind": "sorted", "algo": algo, "sort": sort, "est": rng.choice([None, None, "fixed"]),
                                                   "unint": True, "inc": rng.choice([0.5, 1]), "seed": rng.randrange(1 << 20)},
                                     "np_seed": 1})
-    return [{"desc": d, "corpus": True} for d in out]
+    res = [{"desc": d, "corpus": True} for d in out]
+    # an algorithm + estimator object that has just served another study in which the SAME session ids sat on larger stations:
+    # whatever it remembers about them must not exceed what today's station takes
+    for algo in ("greedy", "rr"):
+        for est in ("rampdown", "fixed"):
+            for big_max, small_max in ((80, 32), (64, 16), (48, 6.5)):
+                sd = {"kind": "sorted", "algo": algo, "sort": rng.choice(gen.SORTS), "est": est, "unint": False, "inc": 0.5, "seed": rng.randrange(1 << 20)}
+
+                def study(mx, dep):
+                    return {"period": 5, "start": [2020, 3, 1, 8, 0], "recompute": [], "np_seed": 1, "scheduler": dict(sd),
+                            "network": {"stations": [{"id": f"s{i}", "evse": {"t": "EVSE", "max": mx, "min": 0}, "voltage": 208, "phase": 0}
+                                                     for i in range(2)], "constraints": [], "tol": None},
+                            "sessions": [{"id": f"x{i}", "station": f"s{i}", "arrival": i, "departure": dep, "requested": 90, "est_dep": dep,
+                                          "battery": {"t": "ideal", "cap": 200, "init": 0, "maxp": 50}} for i in range(2)]}
+
+                res.append({"desc": study(small_max, 8), "warm": study(big_max, 4), "corpus": True})
+    return res
 
 
 def cases(seed, tier):
@@ -216,11 +232,13 @@ def run_case(case, obs):
         # 1. shape: one row per station, rows of one common length >= 1 (the algorithms plan one period; a longer plan is judged
         #    column by column and, per session, against the remaining demand as a whole)
         lens = {len(v) for v in out.values()}
-        if set(out) != set(ids) or len(lens) != 1 or 0 in lens:
+        if not set(out) <= set(ids) or len(lens) > 1 or 0 in lens:
             obs.violate("schedule_shape", f"period {t}: keys {sorted(out)} lengths {[len(v) for v in out.values()]} (stations {ids})", **w_)
             continue
-        rows_full = {i: [float(x) for x in out[i]] for i in ids}
-        Lr = lens.pop()
+        Lr = lens.pop() if lens else 1
+        if set(out) != set(ids):
+            obs.ev("schedules_omitting_stations")  # an omitted station is a station at 0 A (C04)
+        rows_full = {i: ([float(x) for x in out[i]] if i in out else [0.0] * Lr) for i in ids}
         if Lr > 1:
             obs.ev("multi_period_schedules_judged")
             bad = False
